@@ -7,6 +7,7 @@ package set
 import (
 	"fmt"
 	"math"
+	"slices"
 )
 
 // Node is a node.
@@ -269,25 +270,22 @@ func (s *Set) Intersects(b *Set) bool {
 	return false
 }
 
+// spans returns the maximal runs of consecutive members in ascending order.
+func (s *Set) spans() [][2]rune {
+	var runs [][2]rune
+	for node := s.Head.Forward; node != nil && node.Forward != nil; node = node.Forward {
+		if last := len(runs) - 1; last >= 0 && runs[last][1]+1 == node.Begin {
+			runs[last][1] = node.End
+			continue
+		}
+		runs = append(runs, [2]rune{node.Begin, node.End})
+	}
+	return runs
+}
+
 // Equal returns true if two sets are equal.
 func (s *Set) Equal(a *Set) bool {
-	lens, lena := s.Len(), a.Len()
-	if lens != lena {
-		return false
-	} else if lens == 0 && lena == 0 {
-		return true
-	}
-	x, y := s.Head.Forward, a.Head.Forward
-	for {
-		if x.Begin != y.Begin || x.End != y.End {
-			return false
-		}
-		x, y = x.Forward, y.Forward
-		if x == nil && y == nil {
-			break
-		}
-	}
-	return true
+	return slices.Equal(s.spans(), a.spans())
 }
 
 // Len returns the size of the set.
